@@ -83,11 +83,11 @@ class Translator:
         self.rec_by_norm = {}
         for i, n in self.byid.items():
             if n.get('kind') in ('CXXRecordDecl', 'ClassTemplateSpecializationDecl') and n.get('completeDefinition') and n.get('name'):
-                self.rec_by_norm.setdefault(self.norm(self.tname(i)), n)
+                self.rec_by_norm.setdefault(self.norm(self.tname(i), decl=True), n)
         self.enum_by_norm = {}
         for i, n in self.byid.items():
             if n.get('kind') == 'EnumDecl' and n.get('name') and inner(n):
-                self.enum_by_norm.setdefault(self.norm(self.tname(i)), n)
+                self.enum_by_norm.setdefault(self.norm(self.tname(i), decl=True), n)
         self.out_funcs = collections.OrderedDict()
         self.protos = collections.OrderedDict()
         self.records = collections.OrderedDict()   # cname -> text (emission order = dependency order)
@@ -186,9 +186,14 @@ class Translator:
         return prev + 1
 
     # ------------------------------------------------------------------ names and types
-    def norm(self, q):
-        for ns in NAMESPACES:
-            q = q.replace(ns, '')
+    def norm(self, q, decl=False):
+        """normal form of a type name.  decl=False: q is a type as clang prints it (namespace-qualified); decl=True: q is a declaration
+        path without its namespace components already (tname)"""
+        if not decl:
+            q = re.sub(r'\bTeakra::Teakra\b', '@TKCLASS@', q)      # class Teakra inside namespace Teakra
+            for ns in NAMESPACES:
+                q = q.replace(ns, '')
+            q = q.replace('@TKCLASS@', 'Teakra')
         q = re.sub(r'\((\w+(?:::\w+)*)\)(-?\d+)', r'\2', q)          # (RegName)5 -> 5
         q = re.sub(r'\b(\w+(?:::\w+)+)\b', lambda m: self.enumvals.get(m.group(1), m.group(1)), q)
         q = re.sub(r'\b(struct|class|enum) ', '', q)
@@ -199,8 +204,9 @@ class Translator:
         q = q.replace('&', '')
         return re.sub(r'\s', '', q)
 
-    def cident(self, q):
-        return re.sub(r'\W+', '_', self.norm(q)).strip('_')
+    def cident(self, q, decl=False):
+        r = re.sub(r'\W+', '_', self.norm(q, decl)).strip('_')
+        return 'TeakraObj' if r == 'Teakra' else r      # class Teakra::Teakra: a C struct named like the C++ namespace would clash in the bridges
 
     def declident(self, i):
         """C identifier for a declaration, from its path (no enum-constant substitution)"""
@@ -291,8 +297,7 @@ class Translator:
             raise Unsupported('library type ' + q)
         nq = self.norm(q)
         if nq in self.enum_by_norm:
-            self.emit_enum(self.enum_by_norm[nq])
-            return const + self.cident(q)
+            return const + self.emit_enum(self.enum_by_norm[nq])
         if nq in self.rec_by_norm:
             return const + self.emit_record(self.rec_by_norm[nq])
         # forward-declared only (e.g. class MMIORegion; in this TU)
@@ -306,7 +311,7 @@ class Translator:
     def cfunc_name(self, d):
         i = d['id']
         if i in self.fname: return self.fname[i]
-        base = self.cident(self.tname(i))
+        base = self.cident(self.tname(i), decl=True)
         if d.get('kind') == 'CXXConstructorDecl': base += '__ctor'
         targs = [self.targ_str(a) for a in d.get('inner', []) if a.get('kind') == 'TemplateArgument']
         if targs:
@@ -315,6 +320,7 @@ class Translator:
         if len(sibs) > 1 and not targs:
             ps = [re.sub(r'\W+', '_', self.ctype(p['type'])).strip('_') for p in d.get('inner', []) if p.get('kind') == 'ParmVarDecl']
             base += '__' + '_'.join(ps)
+            if re.search(r'\)\s*const\b', d.get('type', {}).get('qualType', '')): base += '_const'
         if len(base) > 200:
             import hashlib
             base = base[:150] + '_h' + hashlib.sha1(base.encode()).hexdigest()[:10]
@@ -507,7 +513,7 @@ class Translator:
         return True
     def use_global(self, i):
         d = self.byid[i]
-        nm = self.cident(self.tname(i))
+        nm = self.cident(self.tname(i), decl=True)
         if nm not in self.globals:
             self.globals[nm] = None
             t = qt(d['type'])
@@ -821,7 +827,7 @@ class Translator:
         return res
     def virtual_call(self, d, objx, args):
         ovs = self.overriders(d)
-        base_rec = self.cident(self.tname(d['id']).rsplit('::', 1)[0])
+        base_rec = self.cident(self.tname(d['id']).rsplit('::', 1)[0], decl=True)
         fn = 'VDISPATCH_%s_%s' % (base_rec, d['name'])
         self.rules['virtual call -> tag switch over overriders'] += 1
         if fn not in self.out_funcs:
@@ -833,8 +839,8 @@ class Translator:
             lines = ['    switch (self->verif_tag) {']
             for ov in ovs:
                 ovd = self.byid[self.defn.get(ov['id'], ov['id'])]
-                cls = self.cident(self.tname(ov['id']).rsplit('::', 1)[0])
-                self.ctype_s(self.tname(ov['id']).rsplit('::', 1)[0])
+                cls = self.cident(self.tname(ov['id']).rsplit('::', 1)[0], decl=True)
+                self.ctype_s(self.qname(ov['id']).rsplit('::', 1)[0])
                 call = '%s((%s%s *)self%s)' % (self.use_func(ovd['id']), const, cls, ''.join(', ' + p[1] for p in ps))
                 lines.append('    case VERIF_TAG_%s: %s%s;%s' % (cls, 'return ' if rt != 'void' else '', call, '' if rt != 'void' else ' return;'))
             lines.append('    default: VERIF_MODEL_ASSERT(0, "virtual dispatch: unknown dynamic type");%s' % (' return 0;' if rt != 'void' else ' return;'))
@@ -844,7 +850,7 @@ class Translator:
             self.func_src[fn] = ('virtual dispatch ' + self.qname(d['id']), '', 0)
             self.vtags = getattr(self, 'vtags', [])
             for ov in ovs:
-                cls = self.cident(self.tname(ov['id']).rsplit('::', 1)[0])
+                cls = self.cident(self.tname(ov['id']).rsplit('::', 1)[0], decl=True)
                 if cls not in self.vtags: self.vtags.append(cls)
         if self.curfn: self.calls[self.curfn].add(fn)
         return '%s(%s)' % (fn, ', '.join([objx] + [self.e(a) for a in args]))
@@ -1142,7 +1148,7 @@ class Translator:
 
     def emit_record(self, d):
         tn = self.tname(d['id'])
-        nm = self.cident(tn)
+        nm = self.cident(tn, decl=True)
         if nm in self.records or nm in self.rec_inprogress:
             if nm in self.rec_inprogress and nm not in self.fwd: self.fwd.append(nm)
             return nm
@@ -1193,7 +1199,7 @@ class Translator:
         return nm
 
     def emit_enum(self, d):
-        nm = self.cident(self.tname(d['id']))
+        nm = self.cident(self.tname(d['id']), decl=True)
         if nm in self.enums: return nm
         ut = self.ctype(d['fixedUnderlyingType']) if 'fixedUnderlyingType' in d else 'int'
         lines = ['typedef %s %s;' % (ut, nm)]
@@ -1208,7 +1214,8 @@ class Translator:
 
     # ------------------------------------------------------------------ functions
     def owner_type(self, d):
-        return self.tname(d['id']).rsplit('::', 1)[0]
+        """owning class of a member function, in clang's printed (namespace-qualified) form"""
+        return self.qname(d['id']).rsplit('::', 1)[0]
 
     def emit_func(self, d):
         nm = self.cfunc_name(d)
@@ -1249,7 +1256,7 @@ class Translator:
         self.func_src[nm] = (self.qname(d['id']), loc.get('file') or loc.get('includedFrom', {}).get('file') or '', loc.get('line') or 0)
         hook = '#ifdef CONTRACT_%s\nCONTRACT_%s\n#endif' % (nm, nm)
         if not body:
-            self.protos[nm] = sig + '\n' + hook + ';'
+            self.protos[nm] = sig + '\n' + hook + '\n;'
             self.out_funcs[nm] = '/* no body in this TU: %s */' % nm
             return
         self.protos[nm] = sig + ';'
@@ -1395,8 +1402,10 @@ class Translator:
             info = self.rec_fields.get(cn)
             if not cxx or not info or info[0] == 'array': continue
             if '<' in cxx and 'anonymous' in cxx: continue
+            out.append('#ifdef BRIDGE_WANT_%s' % cn)
             out.append('static void to_c(const %s &x, ::%s *c);' % (cxx, cn))
             out.append('static void from_c(const ::%s *c, %s &x);' % (cn, cxx))
+            out.append('#endif')
         for cn in self.records:
             cxx = self.rec_cxx.get(cn)
             info = self.rec_fields.get(cn)
@@ -1415,10 +1424,12 @@ class Translator:
                     if q and q.endswith('&'):
                         lines.append('    /* %s: reference member, bound by the bridge */' % name); continue
                     lines += conv(ct, 'c->' + name, 'x.' + name, q, to_c, 0)
+                out.append('#ifdef BRIDGE_WANT_%s' % cn)
                 if to_c:
                     out.append('static void to_c(const %s &x, ::%s *c) {\n    (void)x; (void)c;\n%s\n}' % (cxx, cn, '\n'.join(lines)))
                 else:
                     out.append('static void from_c(const ::%s *c, %s &x) {\n    (void)x; (void)c;\n%s\n}' % (cn, cxx, '\n'.join(lines)))
+                out.append('#endif')
         with open(path, 'w') as f:
             f.write('\n'.join(out) + '\n')
 
